@@ -30,6 +30,9 @@ def parseMemOp (t : String) : Option MemOp :=
   | 'G' => (parseB32 body).map .statL
   | 'c' => if body.isEmpty then some .clear else none
   | 't' => if body.isEmpty then some .snap else none
+  -- `u`: the snapshot is taken on the memory directly below the trap placeholder layer (as caseexec's snapshot provider
+  -- does) instead of through the top of the wrapper stack: by the property text it is the same snapshot
+  | 'u' => if body.isEmpty then some .snap else none
   | 'r' => if body.isEmpty then some .restore else none
   | _ => none
 
@@ -84,9 +87,17 @@ def handleMem (line : String) : String :=
   let secs := (line.splitOn " | ").map String.trim
   match secs with
   | [hd, mid, sS, sD, sI] =>
-    match words hd, mid.splitOn " => " with
+    -- optional fourth word `w<k>`: the wrapper stack the machine is built with (trap / port / coprocessor layers; the harness
+    -- keeps the stores off the layers' I/O addresses).  Both properties hold "when the memory is wrapped": the expected
+    -- behaviour is the one of the bare machine, whatever the stack.
+    let hdw := words hd
+    let wrapOk := match hdw with
+      | [_, _, _] => true
+      | [_, _, _, w] => ["w0", "w1", "w2", "w3", "w4", "w5"].contains w
+      | _ => false
+    match hdw.take 3, mid.splitOn " => " with
     | [_, spec, flavour], [opsS, resS] =>
-      match docMachine spec with
+      match (if wrapOk then docMachine spec else none) with
       | none => "bad"
       | some k =>
         let cfg := cfgNow k
@@ -162,10 +173,13 @@ def handleMem (line : String) : String :=
             if im.startsWith "T:" then ((im.drop 2).toString, acc.2)
             else if im.startsWith "R:" then (acc.1, acc.2 || (im.drop 2).toString != acc.1)
             else acc) ("", false)
-          let viols := if badRestore then viols ++ ["restore-image"] else viols
+          -- a history of another stream that uses snapshots (C05: views coherent after a restore): a restore that does not
+          -- bring the image back is the snapshot property's business, and nothing after it can be judged for the linear view
+          let viols := if badRestore then (if flavour == "7" then viols ++ ["restore-image"] else ["RESTORE"]) else viols
           let viols := viols.filter (fun t => !t.startsWith "@")
           let d := if diffs.isEmpty then "agree" else "DIFF " ++ ",".intercalate diffs
-          let v := if viols.isEmpty then "specok" else "VIOL " ++ ",".intercalate (viols.map fun t => if t == "DECODER" then s!"C04:decoder@{spec}" else s!"C0{flavour}:{t}@{spec}")
+          let v := if viols.isEmpty then "specok" else "VIOL " ++ ",".intercalate (viols.map fun t => if t == "DECODER" then s!"C04:decoder@{spec}"
+            else if t == "RESTORE" then s!"C07:restore-image@{spec}" else s!"C0{flavour}:{t}@{spec}")
           s!"{d} | {v} | mem{flavour}"
     | _, _ => "bad"
   | _ => "bad"
